@@ -11,4 +11,4 @@ trap 'git -C /repo worktree remove --force "$WT" >/dev/null 2>&1; rm -rf "$WT"' 
 git -C "$WT" apply "$PATCH"
 (cd "$WT" && go1.26.8 build ./... ) || { echo "PATCH DOES NOT BUILD"; exit 3; }
 cd /verif
-VERIF_ONLY=1 VERIF_REPO_DIR="$WT" ./bin/vcheck "$ID" "$@" 2>&1 | grep -v '^\s' | grep 'violation class\|VIOLATION\|quick:\|thorough:\|harness\|KNOWN' | head -8
+VERIF_ONLY=1 VERIF_REPO_DIR="$WT" ./bin/vcheck "$ID" "$@" 2>&1 | grep -a -v '^\s' | grep -a 'violation class\|VIOLATION\|quick:\|thorough:\|harness\|KNOWN' | head -8
